@@ -14,7 +14,7 @@ CONSTANTS
   Dev_StalePathReuse = FALSE
   GenDepth = 0
   GenHistory = TRUE
-  GenReject = TRUE
+  GenReject = FALSE
   GenOnlyAfterReject = FALSE
 VIEW StateView
 INVARIANT Emit
